@@ -127,7 +127,12 @@ func (c *Controller) untaintNewestN(nodes []*v1.Node, nodeGroup *NodeGroupState,
 	}
 	sort.Sort(sorted)
 
-	untaintedIndices := make([]int, 0, n)
+	// n comes from the utilisation arithmetic and is unbounded; never reserve more than there are candidates
+	capacity := n
+	if capacity > len(sorted) {
+		capacity = len(sorted)
+	}
+	untaintedIndices := make([]int, 0, capacity)
 	for _, bundle := range sorted {
 		// stop at N (or when array is fully iterated)
 		if len(untaintedIndices) >= n {
